@@ -228,10 +228,11 @@ func isErrTyped(a, b *core.Term) bool {
 
 // c05Iterate checks the field iteration helpers: index from 0, step 1, bound NumFields, callback gets Field(i),
 // early exit only when the callback asks for it.
-func (c *Ctx) c05Iterate() {
+// iteratorRule: the util iterator hands every element (elemCallee(i), i = 0..countCallee()-1) to the callback, in order,
+// and stops early only when the callback says so.
+func (c *Ctx) iteratorRule(rule, fnName, elemCallee, countCallee string) {
 	r := c.R
-	r.Rule("C05-6", "util.IterateFields visits Field(i) for i = 0..NumFields()-1 in order and stops early only when the callback returns true; bmodel.IterateStructFields forwards every field to its callback as a node whose parent is the iterated struct")
-	fn := c.MustFunc("C05-6", "/pkg/util", "IterateFields")
+	fn := c.MustFunc(rule, "/pkg/util", fnName)
 	if fn == nil {
 		return
 	}
@@ -242,7 +243,7 @@ func (c *Ctx) c05Iterate() {
 			if ci, ok := in.(ssa.CallInstruction); ok {
 				if p, ok := ci.Common().Value.(*ssa.Parameter); ok && !ci.Common().IsInvoke() && p == fn.Params[len(fn.Params)-1] {
 					if cbCall != nil {
-						r.Check("C05-6", key+":one-callback-call", c.Pos(ci.Pos()), false, "callback invoked at more than one site")
+						r.Check(rule, key+":one-callback-call", c.Pos(ci.Pos()), false, "callback invoked at more than one site")
 					}
 					cbCall = ci
 				}
@@ -250,12 +251,12 @@ func (c *Ctx) c05Iterate() {
 		}
 	}
 	if cbCall == nil {
-		r.Undecided("C05-6", key, "callback call not found")
+		r.Undecided(rule, key, "callback call not found")
 		return
 	}
 	arg := cbCall.Common().Args[0]
 	fcall, ok := arg.(*ssa.Call)
-	okShape := ok && core.CalleeName(&fcall.Call) == "(*go/types.Struct).Field"
+	okShape := ok && core.CalleeName(&fcall.Call) == elemCallee
 	var idx *ssa.Phi
 	if okShape {
 		idx, _ = fcall.Call.Args[1].(*ssa.Phi)
@@ -276,14 +277,14 @@ func (c *Ctx) c05Iterate() {
 		}
 		okShape = zero && step
 	}
-	r.Check("C05-6", key+":index-0-step-1", c.Pos(cbCall.Pos()), okShape, "callback must receive strct.Field(i) with i running from 0 in steps of 1")
+	r.Check(rule, key+":index-0-step-1", c.Pos(cbCall.Pos()), okShape, "callback must receive "+elemCallee+"(i) with i running from 0 in steps of 1")
 	if okShape {
 		d := c.ReachOf(cbCall)
 		bound := c.M(true, func(t *core.Term) bool {
-			return t.Kind == "binop" && t.Name == "<" && t.Args[0].V == ssa.Value(idx) && t.Args[1].IsCallTo("(*go/types.Struct).NumFields") &&
+			return t.Kind == "binop" && t.Name == "<" && t.Args[0].V == ssa.Value(idx) && t.Args[1].IsCallTo(countCallee) &&
 				t.Args[1].Args[0].V == fcall.Call.Args[0]
 		})
-		r.Check("C05-6", key+":bound", c.Pos(cbCall.Pos()), d.Implies(bound), "loop bound must be i < strct.NumFields() of the same struct; reach: "+d.Describe(c.O))
+		r.Check(rule, key+":bound", c.Pos(cbCall.Pos()), d.Implies(bound), "loop bound must be i < "+countCallee+"() of the same object; reach: "+d.Describe(c.O))
 		// the only literals on the way to the callback are the loop bound and (on later iterations) nothing else: no filter
 		filtered := false
 		for _, cj := range d {
@@ -298,7 +299,7 @@ func (c *Ctx) c05Iterate() {
 				filtered = true
 			}
 		}
-		r.Check("C05-6", key+":no-filter", c.Pos(cbCall.Pos()), !filtered, "a condition other than the loop bound / struct test decides whether a field is visited; reach: "+d.Describe(c.O))
+		r.Check(rule, key+":no-filter", c.Pos(cbCall.Pos()), !filtered, "a condition other than the loop bound / struct test decides whether a field is visited; reach: "+d.Describe(c.O))
 		// early exit only on callback true: every return inside the loop is under cb()==true
 		rc := c.Reach(fn)
 		for i, ret := range core.Returns(fn) {
@@ -308,9 +309,15 @@ func (c *Ctx) c05Iterate() {
 			dd := c.ReachOf(ret)
 			stop := c.M(true, func(t *core.Term) bool { return t.V == cbCall.(ssa.Value) })
 			done := c.M(false, func(t *core.Term) bool { return t.Kind == "binop" && t.Name == "<" && t.Args[0].V == ssa.Value(idx) })
-			r.Check("C05-6", sprintf("%s:return%d:exit", key, i+1), c.InstrPos(ret), dd.Implies(stop, done), "iteration can end before the last field without the callback asking for it; reach: "+dd.Describe(c.O))
+			r.Check(rule, sprintf("%s:return%d:exit", key, i+1), c.InstrPos(ret), dd.Implies(stop, done), "iteration can end before the last field without the callback asking for it; reach: "+dd.Describe(c.O))
 		}
 	}
+}
+
+func (c *Ctx) c05Iterate() {
+	r := c.R
+	r.Rule("C05-6", "util.IterateFields visits Field(i) for i = 0..NumFields()-1 in order and stops early only when the callback returns true; bmodel.IterateStructFields forwards every field to its callback as a node whose parent is the iterated struct")
+	c.iteratorRule("C05-6", "IterateFields", "(*go/types.Struct).Field", "(*go/types.Struct).NumFields")
 	// IterateStructFields: cb(NewStructFieldNode(structNode, t)) unconditionally, result forwarded
 	if f2 := c.MustFunc("C05-6", "/pkg/builder/model", "IterateStructFields"); f2 != nil {
 		k2 := FnKey(f2)
